@@ -107,7 +107,7 @@ end Sig
 section SigCopies
 open Signaling (Sig Op Ty)
 
-/-! ### NegNeeded (C04): all six states, offers / provisional answers / answers (no rollback) -/
+/-! ### NegNeeded (C04): all six states, offers / provisional answers / answers / rollbacks -/
 
 def sigN : NegNeeded.Sig → Sig
   | .stable => .stable | .haveLocalOffer => .haveLocalOffer | .haveRemoteOffer => .haveRemoteOffer
@@ -118,19 +118,31 @@ def opOfLocal (isLocal : Bool) : Op := if isLocal then .setLocal else .setRemote
 def tyOfOffer (isOffer : Bool) : Ty := if isOffer then .offer else .answer
 
 def tyN : NegNeeded.Ty → Ty
-  | .offer => .offer | .pranswer => .pranswer | .answer => .answer
+  | .offer => .offer | .pranswer => .pranswer | .answer => .answer | .rollback => .rollback
 
 /-- `NegNeeded.checkNext` = `checkNextSignalingState` on its fragment (all states, both ops, offer / pranswer /
-    answer) -/
+    answer / rollback) -/
 theorem negneeded_checkNext (cur : NegNeeded.Sig) (isLocal : Bool) (ty : NegNeeded.Ty) :
     (NegNeeded.checkNext cur isLocal ty).map sigN = sigStep (sigN cur) (opOfLocal isLocal) (tyN ty) := by
   cases cur <;> cases isLocal <;> cases ty <;> decide
+
+/-- the end of `NegNeeded.setDescription` (shared with `NegNeeded.rollback`): a successful call moves the state
+    as `sigStep` says -/
+theorem negneeded_applyChecked_sig (pc pc' : NegNeeded.PC) (isLocal : Bool) (ty : NegNeeded.Ty) (d : NegNeeded.Desc)
+    (h : NegNeeded.applyChecked pc isLocal ty d = some pc') :
+    sigStep (sigN pc.sig) (opOfLocal isLocal) (tyN ty) = some (sigN pc'.sig) := by
+  rw [← negneeded_checkNext]
+  unfold NegNeeded.applyChecked at h
+  split at h
+  · cases h
+  · rename_i next hn
+    rw [hn]
+    split at h <;> (cases h; rfl)
 
 /-- … and through `NegNeeded.setDescription`: a successful call moves the state as `sigStep` says -/
 theorem negneeded_setDescription_sig (pc pc' : NegNeeded.PC) (isLocal : Bool) (d : NegNeeded.Desc) (prov : Bool)
     (h : NegNeeded.setDescription pc isLocal d prov = some pc') :
     sigStep (sigN pc.sig) (opOfLocal isLocal) (tyN (NegNeeded.descTy d prov)) = some (sigN pc'.sig) := by
-  rw [← negneeded_checkNext]
   unfold NegNeeded.setDescription at h
   split at h
   · cases h
@@ -138,11 +150,19 @@ theorem negneeded_setDescription_sig (pc pc' : NegNeeded.PC) (isLocal : Bool) (d
     · cases h
     · split at h
       · cases h
-      · split at h
-        · cases h
-        · rename_i next hn
-          rw [hn]
-          split at h <;> (cases h; rfl)
+      · exact negneeded_applyChecked_sig _ _ _ _ _ h
+
+/-- … and through `NegNeeded.rollback` (SetLocal/SetRemoteDescription with type rollback) -/
+theorem negneeded_rollback_sig (pc : NegNeeded.PC) (isLocal : Bool)
+    (h : (NegNeeded.rollback pc isLocal).2 = .ok) :
+    sigStep (sigN pc.sig) (opOfLocal isLocal) .rollback = some (sigN (NegNeeded.rollback pc isLocal).1.sig) := by
+  unfold NegNeeded.rollback at h ⊢
+  split
+  · simp_all
+  · split
+    · simp_all
+    · rename_i pc1 ha
+      exact negneeded_applyChecked_sig _ _ _ .rollback _ ha
 
 /-- the fragment is closed: from a NegNeeded state, a step never leaves its states -/
 theorem negneeded_fragment_closed (cur : NegNeeded.Sig) (isLocal : Bool) (ty : NegNeeded.Ty) (n : Sig)
@@ -323,10 +343,18 @@ theorem negneeded_commitDesc (pc : NegNeeded.PC) (isLocal : Bool) (ty : NegNeede
   unfold NegNeeded.commitDesc
   cases isLocal <;> cases ty <;> rfl
 
+theorem negneeded_applyChecked_slots (pc pc' : NegNeeded.PC) (isLocal : Bool) (ty : NegNeeded.Ty) (d : NegNeeded.Desc)
+    (h : NegNeeded.applyChecked pc isLocal ty d = some pc') :
+    slotsN pc' = commitSlots (opOfLocal isLocal) (tyN ty) d (slotsN pc) := by
+  rw [← negneeded_commitDesc]
+  unfold NegNeeded.applyChecked at h
+  split at h
+  · cases h
+  · split at h <;> (cases h; rfl)
+
 theorem negneeded_setDescription_slots (pc pc' : NegNeeded.PC) (isLocal : Bool) (d : NegNeeded.Desc) (prov : Bool)
     (h : NegNeeded.setDescription pc isLocal d prov = some pc') :
     slotsN pc' = commitSlots (opOfLocal isLocal) (tyN (NegNeeded.descTy d prov)) d (slotsN pc) := by
-  rw [← negneeded_commitDesc]
   unfold NegNeeded.setDescription at h
   split at h
   · cases h
@@ -334,9 +362,20 @@ theorem negneeded_setDescription_slots (pc pc' : NegNeeded.PC) (isLocal : Bool) 
     · cases h
     · split at h
       · cases h
-      · split at h
-        · cases h
-        · split at h <;> (cases h; rfl)
+      · exact negneeded_applyChecked_slots _ _ _ _ _ h
+
+/-- a rollback clears both pending slots and nothing else -/
+theorem negneeded_rollback_slots (pc : NegNeeded.PC) (isLocal : Bool)
+    (h : (NegNeeded.rollback pc isLocal).2 = .ok) :
+    slotsN (NegNeeded.rollback pc isLocal).1 =
+      commitSlots (opOfLocal isLocal) .rollback ({ offer := false, secs := [] } : NegNeeded.Desc) (slotsN pc) := by
+  unfold NegNeeded.rollback at h ⊢
+  split
+  · simp_all
+  · split
+    · simp_all
+    · rename_i pc1 ha
+      exact negneeded_applyChecked_slots _ _ _ .rollback _ ha
 
 theorem negneeded_remoteDesc (pc : NegNeeded.PC) : NegNeeded.remoteDesc pc = pendElseCur pc.pendRemote pc.curRemote := by
   unfold NegNeeded.remoteDesc pendElseCur; cases pc.pendRemote <;> rfl
